@@ -85,7 +85,13 @@ Symbols == IF First THEN (IF Len(cur.fields) <= 4 THEN FONameSet(cur)
                          ELSE {cur.fields[k].name : k \in (Marks \cap DOMAIN cur.fields) \cup {Len(cur.fields)}}) \cup {Missing}
            ELSE IF Lean THEN {cur.fields[1].name, cur.fields[Len(cur.fields)].name, Missing}
            ELSE {cur.fields[1].name, cur.fields[VMin2(2, Len(cur.fields))].name, cur.fields[Len(cur.fields)].name, Missing}
-NameSeqs == InjSeqs(Symbols, IF First THEN Names1 ELSE NamesN)
+\* wide tables also get LONG requests: all names but one or two of the marked ones, in table order and reversed
+Rev(q) == [k \in DOMAIN q |-> q[Len(q) + 1 - k]]
+LongSeqs == IF First /\ Len(cur.fields) > 4
+            THEN UNION {LET c == SelectSeq(FONames(cur), LAMBDA n : n \notin VRange(q)) IN {c, Rev(c)} :
+                          q \in InjSeqs(Symbols \ {Missing}, 2)}
+            ELSE {}
+NameSeqs == InjSeqs(Symbols, IF First THEN Names1 ELSE NamesN) \cup LongSeqs
 FormsFor(q) == IF First THEN {f \in Forms1 : f = "scalar" => Len(q) = 1} ELSE {"list"}
 StrictFor(q) == IF Missing \in VRange(q) THEN {TRUE, FALSE} ELSE {TRUE}
 PoolNow == Pool(key[1], key[2], key[3])
